@@ -5,7 +5,7 @@ from __future__ import annotations
 import ast
 
 from ..core import astq
-from ..core.program import Program, norm, short, walk_function
+from ..core.program import enclosing_stmt, Program, norm, short, walk_function
 from ..report import Result
 from ..runner import Variant
 from . import c02, c17
@@ -70,13 +70,24 @@ def check_lines_premises(prog: Program, res: Result) -> None:
     res.touch(sb)
     g = [c for c, q in prog.calls_in(sb) if q == gp.qualname]
     ok = len(g) == 1
+    sel = {}
     if ok:
         bound = astq.bind_args(gp, g[0])
-        ok = norm(bound.get("pafs_stride")) == "pafs_stride" and norm(bound.get("pafs_sample")) == "pafs_sample" and norm(bound.get("peaks_sample")) == "peaks_sample"
+        st_ = enclosing_stmt(g[0])
+        lp = (astq.enclosing_loops(g[0]) or [None])[0]
+        iv = norm(lp.target) if isinstance(lp, ast.For) else None
+        X = lambda e: astq.dims(norm(astq.expand_at(sb.node, e, st_, keep=[iv] if iv else []))) if e is not None else None
+        sel = {"pafs": X(bound.get("pafs_sample")), "peaks": X(bound.get("peaks_sample")), "stride": X(bound.get("pafs_stride"))}
+        cc = [c for c, q in prog.calls_in(sb) if q == f"{PG}:get_connection_candidates"]
+        if len(cc) == 1:
+            b2 = astq.bind_args(prog.func(f"{PG}:get_connection_candidates"), cc[0])
+            sel["channels"] = X(b2.get("peak_channel_inds_sample"))
+        ok = sel["stride"] == "pafs_stride"
+        it = astq.xnorm(sb.node, lp.iter) if isinstance(lp, ast.For) else ""
+        ok_loop = iv is not None and it in ("range(len(pafs))", "range(len(peaks))", "range(pafs.shape[0])", "range(pafs.size(0))", "range(len(peak_channel_inds))")
     res.ob(R, ok, sb.qualname, "per-sample PAFs/peaks/stride forwarded", "score_paf_lines_batch does not forward the sample's PAFs, peaks and stride", sb.where)
-    d = {norm(s.targets[0]): norm(s.value) for s in walk_function(sb.node) if isinstance(s, ast.Assign) and isinstance(s.targets[0], ast.Name)}
-    ok = d.get("pafs_sample") == "pafs[sample]" and d.get("peaks_sample") == "peaks[sample]" and d.get("peak_channel_inds_sample") == "peak_channel_inds[sample]"
-    res.ob(R, ok, sb.qualname, "sample i uses PAFs, peaks and channels of sample i", f"per-sample selection is {d.get('pafs_sample')}, {d.get('peaks_sample')}, {d.get('peak_channel_inds_sample')}", sb.where)
+    ok = bool(sel) and ok_loop and sel.get("pafs") == f"pafs[{iv}]" and sel.get("peaks") == f"peaks[{iv}]" and sel.get("channels") == f"peak_channel_inds[{iv}]"
+    res.ob(R, ok, sb.qualname, "sample i uses PAFs, peaks and channels of sample i", f"per-sample selection is {sel}", sb.where)
     fc = prog.cls(f"{PG}:PAFScorer").methods.get("from_config")
     res.touch(fc)
     cc = [c for c in walk_function(fc.node) if isinstance(c, ast.Call) and norm(c.func) == "cls"]
